@@ -352,6 +352,7 @@ func (s *Server) sendResponseUnsafe(invokeID string, additionalHeaders map[strin
 }
 
 func (s *Server) SendResponse(invokeID string, resp *interop.StreamableInvokeResponse) error {
+	verifAt("server.sendResponse")
 	s.setRuntimeState(runtimeInvokeResponseSent)
 	s.mutex.Lock()
 	defer s.mutex.Unlock()
@@ -373,6 +374,7 @@ func (s *Server) SendInitErrorResponse(resp *interop.ErrorInvokeResponse) error 
 }
 
 func (s *Server) SendErrorResponse(invokeID string, resp *interop.ErrorInvokeResponse) error {
+	verifAt("server.sendErrorResponse")
 	log.Debugf("Sending Error Response: %s", resp.FunctionError.Type)
 	s.setRuntimeState(runtimeInvokeError)
 	s.mutex.Lock()
